@@ -202,5 +202,10 @@ def check(run, model, tier):
                 run.inst('ALIAS.queue', f, 'binds self.queue: ' + norm(st), ok,
                          '' if ok else 'self.queue is rebound outside __init__: the thread keeps waiting on the old object while posts go to the new one', node=st, obligation=True)
     run.floor('bindings of self.queue', n, 2)
+    run.rule('LAYER.queue-writers', 'only post_fifo/post_lifo, next_rtc, stop() (wake-up item) and the LockingDeque itself operate on the pending-event queue')
+    queues.check_queue_writers(run, model, 'LAYER.queue-writers')
+    run.rule('ENDS.queue-class', 'the pending and deferral queues are collections.deque objects (or subclasses that redefine none of deque\'s interface)')
+    from sa.context import callgraph as _cgq
+    queues.check_queue_classes(run, model, _cgq(model), 'ENDS.queue-class')
     run.assume('callers outside the package do not call next_rtc/dispatch of a started active object from their own threads')
     run.assume('H4: handlers do not call dispatch re-entrantly')
